@@ -1225,16 +1225,22 @@ def parse_response_start_line(line: str) -> ResponseStartLine:
 
 
 def _parseparam(s: str) -> Generator[str]:
+    # A double quote is escaped only if it is preceded by an odd number of
+    # backslashes: in ``"x\\"`` the two backslashes are an escaped backslash
+    # and the quote closes the string.  Blank out escaped backslashes (in a
+    # same-length copy used only for counting) so that the ``\"`` count
+    # below sees exactly the escaped quotes.
+    t = s.replace("\\\\", "__")
     start = 0
-    while s.find(";", start) == start:
+    while t.find(";", start) == start:
         start += 1
-        end = s.find(";", start)
+        end = t.find(";", start)
         ind, diff = start, 0
         while end > 0:
-            diff += s.count('"', ind, end) - s.count('\\"', ind, end)
+            diff += t.count('"', ind, end) - t.count('\\"', ind, end)
             if diff % 2 == 0:
                 break
-            end, ind = ind, s.find(";", end + 1)
+            end, ind = ind, t.find(";", end + 1)
         if end < 0:
             end = len(s)
         f = s[start:end]
